@@ -341,6 +341,29 @@ func adjacencyFamily() []*Ast {
 		cat(rep(grp(&Ast{Kind: AClass, Items: []ClassItem{{Short: 'w'}}}), 0, 1, true), &Ast{Kind: ACondRef, Ref: 1, Kids: []*Ast{lit('!'), lit('?')}}),
 		cat(wideCap(), &Ast{Kind: ABackref, Ref: 1}, lit('b')),
 	)
+	// atomic alternations of three or more literal branches sharing first or last characters (the regrouping of
+	// branches by their first character is right only where a branch is entered by its first character: not when
+	// matching right to left), bare, next to a literal and at the end of a lookbehind
+	lits := func(s string) *Ast {
+		var k []*Ast
+		for _, ch := range s {
+			k = append(k, lit(ch))
+		}
+		if len(k) == 1 {
+			return k[0]
+		}
+		return cat(k...)
+	}
+	for _, br := range [][]string{{"ax", "b", "ab"}, {"cx", "bc", "c"}, {"xa", "b", "ba"}, {"ab", "cb", "acb"}, {"a", "ba", "ca", "bca"}} {
+		mk := func() *Ast {
+			var k []*Ast
+			for _, b := range br {
+				k = append(k, lits(b))
+			}
+			return atomic(alt(k...))
+		}
+		out = append(out, mk(), cat(lit('c'), mk()), cat(mk(), lit('c')), cat(&Ast{Kind: ALook, Behind: true, Kids: []*Ast{cat(grp(alt(lits(br[0]), lits(br[1]), lits(br[2]))), lit('c'))}}, lit('a')))
+	}
 	// an anchor first or last next to a literal (the candidate-position filters of both scan directions key on them)
 	for _, an := range []string{"^", "$", `\A`, `\z`, `\Z`, `\b`, `\B`} {
 		a := func() *Ast { return &Ast{Kind: AAnchor, Name: an} }
